@@ -83,6 +83,17 @@ def run(tier, seed):
             p["runs"] = [c09.td_config(ck.rng, d) for d in intersound.DOMS]
             intergen.bound_contexts(ck.rng, p)
             ps.append(p)
+        if off == 0:    # directed call graphs: self recursion, mutual recursion (with an assertion after the recursive call in the
+            # non-head function), spike callees; recursive ones analysed with analyze_recursive_functions on and off
+            for i in range(8 if tier == "quick" else 60):
+                for fam in (intergen.countdown_program, intergen.mutual_program, intergen.spike_program):
+                    q = fam(ck.rng, 250000 + 3 * i + len(ps))
+                    q["runs"] = [c09.td_config(ck.rng, d) for d in intersound.DOMS]
+                    if q.get("recursive"):
+                        for r in q["runs"]:
+                            r["rec"] = ck.rng.choice([1, 1, 0])
+                    intergen.bound_contexts(ck.rng, q)
+                    ps.append(q)
         viols, merged, _ = intersound.explore(ck, "td%d" % off, ps)
         count(merged)
         report(ck, viols, "top-down inter-procedural")
